@@ -902,72 +902,121 @@ fn every_field_on_every_path(cx: &mut Ctx, up: &Src) {
 fn infinite_constants(cx: &mut Ctx, up: &Src) {
     use crate::eval::{Machine, V};
     let rule = "C11.N2";
-    cx.rule(rule, "`inf` is not Python syntax: in the Constant arm of the unparser the guard of the Float arm holds exactly for infinite values and the guard of the Complex arm holds exactly when the real OR the imaginary part is infinite (evaluated over finite / +inf / -inf components); those arms substitute the overflowing literal `1e309`, every other constant goes through Display");
-    cx.floor(rule, 2);
+    cx.rule(rule, "`inf` is not Python syntax: the Constant arm of the unparser, interpreted for float constants (finite, +inf, -inf), complex constants (every combination of finite / infinite parts) and another constant, writes the overflowing literal `1e309` for an infinite float, writes the Display text with `inf` replaced by `1e309` exactly when the real OR the imaginary part is infinite, and uses plain Display otherwise — whether the distinction is made by arm guards or by conditions inside the arms");
+    cx.floor(rule, 10);
     let Some(f) = up.method("Unparser", "unparse_expr") else { return cx.anchor_missing(rule, "Unparser::unparse_expr") };
-    let mut arms: Vec<&syn::Arm> = vec![];
+    // the arm for Expr::Constant
+    let mut arm: Option<&syn::Arm> = None;
     sm::for_each_expr_in_block(&f.block, |e| {
         if let syn::Expr::Match(m) = e {
             for a in &m.arms {
-                let p = sm::tsc(&a.pat);
-                if p.starts_with("Constant::Float(") || p.starts_with("Constant::Complex{") {
-                    arms.push(a);
+                if sm::tsc(&a.pat).starts_with("Expr::Constant(") && arm.is_none() {
+                    arm = Some(a);
                 }
             }
         }
     });
-    let none = |_: &V, _: &str, _: &[V]| -> Option<V> { None };
-    let vals = [1.5f64, 0.0, f64::INFINITY, f64::NEG_INFINITY];
-    let mut seen = 0;
-    for a in arms {
-        let p = sm::tsc(&a.pat);
-        let mut ids = vec![];
-        sm::pat_idents(&a.pat, &mut ids);
-        let body = sm::tsc(&a.body);
-        let Some((_, g)) = &a.guard else {
-            cx.fail(rule, &format!("{}/unguarded", rule), &up.loc(&a.pat), &format!("the arm `{}` has no guard for infinite values", p));
-            continue;
-        };
-        if !body.contains("inf_str") && !body.contains("1e309") {
-            cx.fail(rule, &format!("{}/literal", rule), &up.loc(&a.pat), &format!("the arm `{}` does not write the overflowing literal", p));
-            continue;
-        }
-        seen += 1;
-        let mut bad = vec![];
-        if p.starts_with("Constant::Float(") && ids.len() == 1 {
-            for x in vals {
-                let mut mach = Machine::new(&none);
-                mach.set(&ids[0], V::F(x));
-                match mach.eval(g) {
-                    Ok(V::Bool(b)) if b == x.is_infinite() => {}
-                    other => bad.push(format!("{:?}: guard is {:?}", x, other)),
-                }
-            }
-        } else if ids.len() == 2 {
-            // field order of the pattern: bind by name
-            for re in vals {
-                for im in vals {
-                    let mut mach = Machine::new(&none);
-                    for id in &ids {
-                        mach.set(id, V::F(if id == "real" { re } else { im }));
-                    }
-                    match mach.eval(g) {
-                        Ok(V::Bool(b)) if b == (re.is_infinite() || im.is_infinite()) => {}
-                        other => bad.push(format!("({:?}, {:?}j): guard is {:?}", re, im, other)),
-                    }
-                }
-            }
-        } else {
-            bad.push(format!("pattern binds {:?}", ids));
-        }
-        if bad.is_empty() {
-            cx.ok(rule, &format!("`{}`: guard = some component is infinite", p));
-        } else {
-            bad.truncate(3);
-            cx.fail(rule, &format!("{}/{}", rule, if p.starts_with("Constant::Float") { "Float" } else { "Complex" }), &up.loc(&a.pat), &format!("the guard of `{}` does not select exactly the infinite values: {}: such a constant is rendered as `inf`, which re-lexes as a name", p, bad.join("; ")));
+    let Some(arm) = arm else { return cx.anchor_missing(rule, "the Expr::Constant arm") };
+    let stmts: Vec<syn::Stmt> = match &*arm.body {
+        syn::Expr::Block(b) => b.block.stmts.clone(),
+        other => vec![syn::Stmt::Expr(other.clone(), None)],
+    };
+    let fin = [1.5f64, 0.0];
+    let inf = [f64::INFINITY, f64::NEG_INFINITY];
+    let mut cases: Vec<(String, V, &'static str)> = vec![];
+    for x in fin {
+        cases.push((format!("float {:?}", x), V::Ctor("Constant::Float".into(), vec![V::F(x)]), "display"));
+    }
+    for x in inf {
+        cases.push((format!("float {:?}", x), V::Ctor("Constant::Float".into(), vec![V::F(x)]), "literal"));
+    }
+    let all = [1.5f64, 0.0, f64::INFINITY, f64::NEG_INFINITY];
+    for re in all {
+        for im in all {
+            let mut rec = BTreeMap::new();
+            rec.insert("real".to_string(), V::F(re));
+            rec.insert("imag".to_string(), V::F(im));
+            let want = if re.is_infinite() || im.is_infinite() { "replaced" } else { "display" };
+            cases.push((format!("complex ({:?}, {:?}j)", re, im), V::Ctor("Constant::Complex".into(), vec![V::Rec(rec)]), want));
         }
     }
-    if seen != 2 {
-        cx.fail(rule, &format!("{}/arms", rule), &up.rel, &format!("{} of the 2 arms for infinite Float / Complex constants found", seen));
+    cases.push(("an integer constant".into(), V::Ctor("Constant::Int".into(), vec![V::Int(3)]), "display"));
+    let mut bad = vec![];
+    let total = cases.len();
+    for (name, value, want) in cases {
+        let actions: std::cell::RefCell<Vec<String>> = std::cell::RefCell::new(vec![]);
+        let methods = |recv: &V, m: &str, args: &[V]| -> Option<V> {
+            match (recv, m) {
+                (V::Enum(r), "p") if r == "self" => {
+                    let what = match args.first() {
+                        Some(V::Str(s)) if s == "1e309" => "literal".to_string(),
+                        Some(V::Enum(t)) if t.starts_with("replaced:") => "replaced".to_string(),
+                        other => format!("p({:?})", other),
+                    };
+                    actions.borrow_mut().push(what);
+                    Some(V::Unit)
+                }
+                (V::Ctor(..), "to_string") => Some(V::Enum("display-text".into())),
+                (V::Enum(t), "replace") if t == "display-text" => match args {
+                    [V::Str(from), V::Str(to)] if from == "inf" && to == "1e309" => Some(V::Enum("replaced:inf->1e309".into())),
+                    _ => Some(V::Enum("replaced-wrongly".into())),
+                },
+                (V::Unit, "fmt::Display::fmt") | (V::Unit, "Display::fmt") | (V::Unit, "std::fmt::Display::fmt") => {
+                    actions.borrow_mut().push("display".into());
+                    Some(V::Unit)
+                }
+                _ => None,
+            }
+        };
+        let mut mach = Machine::new(&methods);
+        mach.set("value", value);
+        mach.set("kind", V::Opt(None));
+        // statements that set the scene (`assert_eq!`, the `u` prefix) may not be interpretable; the decision must be
+        let mut last_err: Option<String> = None;
+        for st in &stmts {
+            let r = match st {
+                syn::Stmt::Expr(e, _) => mach.eval(e).map(|_| ()),
+                syn::Stmt::Local(_) => {
+                    let b = syn::Block { brace_token: Default::default(), stmts: vec![st.clone()] };
+                    // bind in the current scope: evaluate the initialiser and set the name
+                    if let syn::Stmt::Local(l) = st {
+                        let mut ids = vec![];
+                        sm::pat_idents(&l.pat, &mut ids);
+                        match (ids.as_slice(), &l.init) {
+                            ([id], Some(init)) => match mach.eval(&init.expr) {
+                                Ok(v) => {
+                                    mach.set(id, v);
+                                    Ok(())
+                                }
+                                Err(e) => Err(e),
+                            },
+                            _ => Err("let".into()),
+                        }
+                    } else {
+                        let _ = b;
+                        Ok(())
+                    }
+                }
+                _ => Ok(()),
+            };
+            if let Err(e) = r {
+                last_err = Some(e);
+            }
+        }
+        let acts = actions.borrow().clone();
+        let decided: Vec<&String> = acts.iter().filter(|a| *a == "literal" || *a == "replaced" || *a == "display").collect();
+        if decided.len() != 1 || decided[0] != want {
+            bad.push(format!("{}: {:?} (expected {}){}", name, acts, want, last_err.map(|e| format!(" [{}]", e)).unwrap_or_default()));
+        }
+    }
+    if bad.is_empty() {
+        cx.unit("constants on which the Constant arm was interpreted", total);
+        for _ in 0..total {
+            cx.ok_trivial(rule);
+        }
+        cx.ok(rule, "infinite float -> 1e309; complex with an infinite part -> Display with inf replaced; otherwise Display");
+    } else {
+        bad.truncate(3);
+        cx.fail(rule, &format!("{}/constant-arm", rule), &up.loc(&arm.pat), &format!("the Constant arm does not render infinite components as `1e309` exactly when they occur: {}: `inf` re-lexes as a name", bad.join("; ")));
     }
 }
